@@ -270,6 +270,10 @@ func vInitialFontWeight() (int, []string) {
 //@   props C04
 //@   requires computer != nil && typeIs(_value, pr.DimOrS)
 //@   modifies anything
+// the reference font size is the PARENT's computed font size whenever there is a parent (a parent
+// font size of 0 is a font size like any other), and the initial value only on the root element
+//@   return 6 ensures[reference] parentFontSize == ite(computer.parentStyle != nil, computer.parentStyle.GetFontSize().Value, pr.InitialValues.GetFontSize().Value)
+//@   call length_#1 assert parentFontSize == ite(computer.parentStyle != nil, computer.parentStyle.GetFontSize().Value, pr.InitialValues.GetFontSize().Value)
 //@   return 6 ensures[percentage] typeIs(result, pr.DimOrS) && result.(pr.DimOrS).S == "" && result.(pr.DimOrS).Value == _value.(pr.DimOrS).Value * parentFontSize / 100
 //@   call length_#1 assert arg0 == computer && arg1 == _value.(pr.DimOrS) && arg2 == parentFontSize && arg3
 
